@@ -92,21 +92,25 @@ static void diag_check(int dflt){
   ASSUME(n1 != n2);
   i64 l1 = (i64)shape[n1] + (off < 0 ? off : 0), l2 = (i64)shape[n2] - (off > 0 ? off : 0);
   i64 len = l1 < l2 ? l1 : l2;
-  ASSUME(len >= 1);
+#ifdef KF_C04_DIAGONAL_BEYOND
+  ASSUME(!(len < 0));        /* finding: an offset more than one step beyond the matrix gives a negative (wrapped) extent instead of 0 */
+#endif
+  if (len < 0) len = 0;      /* an offset at/beyond the matrix edge selects an empty diagonal (shape observed, no element to read) */
 #ifdef KF_C04_DIAGONAL_NEGOFFSET
   ASSUME(!(off < 0));
 #endif
   u64 j = 0; for (u64 k = 0; k < DIM; k++) if (k != n1 && k != n2) ex[j++] = shape[k];
   ex[j] = (u64)len;
-  in_index(idx, ex, DIM - 1, MAXE - 1);
-  int r = dflt ? CAT(k_diagonal_default, DIM)(shape, data, idx, DIM - 1, os, &od, &out) : CAT(k_diagonal, DIM)(shape, data, (u32)off, (u32)a1, (u32)a2, idx, DIM - 1, os, &od, &out);
-  ASSERT(r == 1, "diagonal accepted");
+  for (u64 i = 0; i < 4; i++){ u64 v = in_u64(0, MAXE - 1); idx[i] = i < DIM - 1 ? v : 0; ASSUME(i < DIM - 1 && len > 0 ? v < ex[i] : 1); }
+  u64 ni = len > 0 ? DIM - 1 : 0;
+  int r = dflt ? CAT(k_diagonal_default, DIM)(shape, data, idx, ni, os, &od, &out) : CAT(k_diagonal, DIM)(shape, data, (u32)off, (u32)a1, (u32)a2, idx, ni, os, &od, &out);
+  ASSERT(r == (len > 0 ? 1 : 2), "diagonal accepted (an empty diagonal is observed by shape only)");
   ASSERT(od == DIM - 1, "dim - 1");
   for (u64 k = 0; k < DIM - 1; k++) ASSERT(os[k] == ex[k], "shape == remaining axes + (diagonal length,)");
   j = 0; for (u64 k = 0; k < DIM; k++) if (k != n1 && k != n2) src[k] = idx[j++];
   src[n1] = idx[DIM - 2] + (off < 0 ? (u64)(-off) : 0);
   src[n2] = idx[DIM - 2] + (off > 0 ? (u64)off : 0);
-  ASSERT(out == data[horner(src, shape, DIM)], "element == a[..., i (+ -offset), ..., i (+ offset), ...]");
+  if (len > 0) ASSERT(out == data[horner(src, shape, DIM)], "element == a[..., i (+ -offset), ..., i (+ offset), ...]");
   OBS(out);
   REACHED();
 }
